@@ -67,15 +67,20 @@ var histSched = map[string]func() []nschedTask{
 	},
 }
 
-func regHist(prop string, sc func() []histParams, depthQ, depthT int, rule string, accept func(core.Violation) bool) {
+func regHist(prop string, sc func() []histParams, depthQ, depthT int, rule string, accept func(core.Violation) bool, extra ...func(*core.Report)) {
 	All[prop] = func() int {
 		var sched []nschedTask
 		if f, ok := histSched[prop]; ok {
 			sched = f()
 			rule += ". Plus stateless schedule exploration: baselines with concurrent arrivals on several connections (all bytes delivered before any thread runs); one stall (250 ms) or pre-emption (2 alternatives) at every scheduling point, same oracles"
 		}
-		return runHistCheck(histCheck{prop: prop, scenarios: sc(), depthQ: depthQ, depthT: depthT, statesQ: 250000, statesT: 4000000,
+		rep := core.NewReport(prop, "model_checking")
+		for _, f := range extra {
+			f(rep)
+		}
+		histCheckInto(rep, histCheck{prop: prop, scenarios: sc(), depthQ: depthQ, depthT: depthT, statesQ: 250000, statesT: 4000000,
 			budgetQ: 150 * time.Second, budgetT: 25 * time.Minute, rule: rule, assume: peerAssumption, accept: accept, sched: sched})
+		return rep.Finish()
 	}
 	Replayers[prop] = func(wit json.RawMessage) []core.Violation { return histReplay(wit, prop) }
 }
@@ -103,5 +108,5 @@ func init() {
 	Replayers["C11"] = func(wit json.RawMessage) []core.Violation { return histReplay(wit, "C11") }
 	regHist("C06", c06Scenarios, 4, 6, "explicit-state BFS over histories: unconfirmed R1 (relevant), I1 (irrelevant), R3 delivered from trusted/untrusted peers; blocks confirming D1 (relevant double spend of R1), D2 (irrelevant double spend of R1), M1 (double spends I1 and R3), with or without the winner seen before; oracle: cancelled+unsafe update for every previously delivered loser, chain advances (block on the node's chain), block's relevant txs delivered with verified proofs", nil)
 	regHist("C07", c07Scenarios, 4, 6, "explicit-state BFS over histories with the virtual clock (safe delay 2000 ms; steps 100/1900/2300 ms): untrusted tx, trusted inv, trusted tx, conflict before/between/after expiry, confirmation, local submission, restart; oracle on the per-txid sequence of states: never safe&unsafe, cancelled=>unsafe, no safe after unsafe, safe only with trusted vouch + no known conflict + delay, safe at most once, and (liveness phase from every state) safe within delay+500 ms when warranted", nil)
-	regHist("C14", c14Scenarios, 4, 6, "explicit-state BFS over histories of inv announcements of overlapping txid sets from the trusted and two verified untrusted connections, deliveries, non-deliveries, pings (peer activity), clock steps 1 s / 3.1 s, confirmation; oracle over timestamped getdata(tx) on all connections: no two requests for a txid within 3 s, none after the body arrived, none after its block was processed, re-request from another announcer after the window", nil)
+	regHist("C14", c14Scenarios, 4, 6, "explicit-state BFS over histories of inv announcements of overlapping txid sets from the trusted and two verified untrusted connections, deliveries, non-deliveries, pings (peer activity), clock steps 1 s / 3.1 s, confirmation; oracle over timestamped getdata(tx) on all connections: no two requests for a txid within 3 s, none after the body arrived, none after its block was processed, re-request from another announcer after the window", nil, c14Component)
 }
